@@ -401,7 +401,12 @@ CLAIMED = {
         "model and the cycle parameters only, not on the source (mg_error_propagation); block "
         "systems are non-singular and the discrete solution is unique for physical models. So the "
         "'reduction factor per cycle' the property speaks about is a well-defined quantity of "
-        "(grid, model, cycle). NOT proved, only MEASURED (obligation kind 'measured'; no theorem "
+        "(grid, model, cycle). Laplace domain (Props/SmoothEnergy.lean, any ordered field): the "
+        "operator is symmetric positive semi-definite on PEC fields (energy_nonneg) and every block "
+        "relaxation is an A-orthogonal projection of the error (relaxBlock_energy), so no call of "
+        "solver.smoothing - any line-relaxation code, any number of sweeps, any grid - increases "
+        "the energy norm of the error (smoothing_energy_le; observed on the jitted kernels by the "
+        "suite `energy`). NOT proved, only MEASURED (obligation kind 'measured'; no theorem "
         "stands behind it): the value of that factor and its independence of the grid size - a "
         "quantitative statement of numerical analysis (h-independent spectral radius) that is out of "
         "reach of a machine-checked proof here. The measurement follows the property's own "
